@@ -333,6 +333,12 @@ def step (st : St) (line : String) : St × List String :=
         (st, ["ok " ++ vs ++ " |" ++ String.join (db'.addrs.map fun r => " " ++ r.addr ++ ":" ++ balStr r.bals) ++ " | rels=" ++ toString db'.rels.length])
       | .fail f _ => (st, ["fail " ++ tohex f.kind])
     | _ => (st, ["bad-op"])
+  | "validate" :: h :: rest =>
+    -- validate <h> <tx-entry tokens…>  → validAt validPegTx hasConversions hasPEGRequest
+    match h.toNat?, txEntry.run rest with
+    | some h, some (e, []) =>
+      (st, ["ok " ++ b01 (e.validAt st.P h) ++ " " ++ b01 (e.validPegTx st.P) ++ " " ++ b01 (e.hasConversions st.P) ++ " " ++ b01 e.hasPEGRequest])
+    | _, _ => (st, ["bad-op"])
   | ["inband", o, s, tn, td] =>
     match o.toNat?, s.toNat?, tn.toNat?, td.toNat? with
     | some o, some s, some tn, some td => (st, ["ok " ++ b01 (inBand o s tn td)])
